@@ -199,7 +199,7 @@ func (vc *VC) execInstr(fr *Frame, st *State, pc string, in ssa.Instruction) {
 			vc.oblige("nopanic.index", "", pc, fmt.Sprintf("(and (<= 0 %s) (< %s (sl.len %s)))", idx.S, idx.S, sl.S), t.Pos(), "slice index in range")
 			key := vc.memKey(u.Elem())
 			ai := vc.define("ix", SInt, "(+ (sl.off "+sl.S+") "+idx.S+")")
-			fr.vals[t] = Sym{L: &LVal{Kind: LElem, Key: key, Ref: "(sl.base " + sl.S + ")", Idx: ai, T: u.Elem()}}
+			fr.vals[t] = Sym{L: &LVal{Kind: LElem, Key: key, Ref: "(sl.base " + sl.S + ")", Idx: ai, T: u.Elem(), Sl: sl.S, RelIdx: idx.S}}
 		case *types.Pointer:
 			arr := u.Elem().Underlying().(*types.Array)
 			vc.oblige("nopanic.index", "", pc, fmt.Sprintf("(and (<= 0 %s) (< %s %d))", idx.S, idx.S, arr.Len()), t.Pos(), "array index in range")
@@ -721,10 +721,18 @@ func (vc *VC) binop(pc string, op token.Token, x, y Term, xt types.Type, rt type
 			vc.fitsCheck(pc, s, rt, pos)
 		case token.QUO:
 			vc.oblige("nopanic.divzero", "", pc, "(not (= "+y.S+" 0))", pos, "division by zero")
-			s = "(go_div " + x.S + " " + y.S + ")"
+			if k, ok := constIntOf(y.S); ok && k > 0 {
+				s = fmt.Sprintf("(ite (>= %s 0) (div %s %d) (- (div (- %s) %d)))", x.S, x.S, k, x.S, k)
+			} else {
+				s = "(go_div " + x.S + " " + y.S + ")"
+			}
 		case token.REM:
 			vc.oblige("nopanic.divzero", "", pc, "(not (= "+y.S+" 0))", pos, "division by zero")
-			s = "(go_mod " + x.S + " " + y.S + ")"
+			if k, ok := constIntOf(y.S); ok && k > 0 {
+				s = fmt.Sprintf("(ite (>= %s 0) (mod %s %d) (- (mod (- %s) %d)))", x.S, x.S, k, x.S, k)
+			} else {
+				s = "(go_mod " + x.S + " " + y.S + ")"
+			}
 		case token.SHL:
 			if k, ok := constIntOf(y.S); ok && k >= 0 && k < 63 {
 				s = "(* " + x.S + " " + pow2(k) + ")"
